@@ -25,7 +25,7 @@ package parser
 
 // Type.Equals compares two type descriptors structurally; it reads but never changes them.
 //@ func (t *Type) Equals(t2 *Type) (r bool)
-//@   props C04
+//@   props C04 C02
 //@   opt nilrecv true
 //@   ensures[assumed-abstract-name] r == typeEq(t, t2)
 //@   ensures[C04 structural-equality] r == eqT(t, t2)
@@ -34,7 +34,7 @@ package parser
 //@   loop 1 decreases depth(left)
 
 //@ func (t *Type) accepts(t2 *Type) (r bool)
-//@   props C04
+//@   props C04 C02
 //@   opt nilrecv true
 //@   ensures[C04 assignability] r == acc(t, t2, false, true)
 //@   modifies nothing
@@ -42,7 +42,7 @@ package parser
 //@   loop 1 decreases depth(left)
 
 //@ func (t *Type) matches(t2 *Type) (r bool)
-//@   props C04
+//@   props C04 C02
 //@   opt nilrecv true
 //@   ensures[C04 operand-compatibility] r == mat(t, t2)
 //@   modifies nothing
@@ -179,7 +179,7 @@ package parser
 //@ pure okBinary(op Operator, lt *Type, rt *Type) bool = op != OP_ILLEGAL && op != OP_BANG && (mat(lt, rt) || (lt.Name == ARRAY && op == OP_ASTERISK)) && (op == OP_PLUS ==> lt == NUM_TYPE || lt == STRING_TYPE || lt.Name == ARRAY) && (op == OP_ASTERISK ==> lt == NUM_TYPE || (lt.Name == ARRAY && rt == NUM_TYPE)) && (op == OP_MINUS || op == OP_SLASH || op == OP_PERCENT ==> lt == NUM_TYPE) && (op == OP_LT || op == OP_GT || op == OP_LTEQ || op == OP_GTEQ ==> lt == NUM_TYPE || lt == STRING_TYPE) && (op == OP_AND || op == OP_OR ==> lt == BOOL_TYPE)
 
 //@ func (p *parser) validateBinaryType(binaryExp *BinaryExpression) ()
-//@   props C04 C05
+//@   props C04 C05 C02
 //@   requires binaryExp != nil && binaryExp.token != nil && binaryExp.Left != nil && binaryExp.Right != nil
 //@   let lt = callres("(Node).Type", 1, 0).(*Type)
 //@   let rt = callres("(Node).Type", 2, 0).(*Type)
@@ -189,7 +189,7 @@ package parser
 //@   modifies p.errors, class elem:*parser.Error
 
 //@ func (p *parser) validateUnaryType(unaryExp *UnaryExpression) ()
-//@   props C04 C05
+//@   props C04 C05 C02
 //@   requires unaryExp != nil && unaryExp.token != nil && unaryExp.Right != nil
 //@   let rt = callres("(Node).Type", 1, 0).(*Type)
 //@   ensures[C04 C05 unary-table] ncalls("(*parser).appendErrorForToken") <= 1 && ((ncalls("(*parser).appendErrorForToken") == 0) <==> ((unaryExp.Op == OP_MINUS && rt == NUM_TYPE) || (unaryExp.Op == OP_BANG && rt == BOOL_TYPE)))
